@@ -105,7 +105,7 @@ def run_case(arg):
         if case["kind"] == "ch":
             _run_ch_case(case, res)
         elif case["kind"] == "conc":
-            _run_conc_case(case, func, res)
+            _run_conc_case(case, func, res, known)
         else:
             _run_sx_case(case, func, res, tier, seed, known)
     except BaseException as e:  # noqa: BLE001
@@ -150,7 +150,7 @@ def _run_ch_case(case, res):
         res["n_inconclusive"] = 1
 
 
-def _run_conc_case(case, func, res):
+def _run_conc_case(case, func, res, known=()):
     from pvlib.sx.engine import ConcEngine, Stats
 
     ce = ConcEngine({})
@@ -160,9 +160,17 @@ def _run_conc_case(case, func, res):
     st.discharged = sum(1 for _, ok in ce.proved if ok)
     res["stats"] = st.as_dict()
     res["stats"]["conc_runs"] = 1
-    if status == "stopped" and ce.failed:
-        for f in ce.failed:
+    # failed obligations and non-stopping failure reports, whatever way the run ended
+    excl = _known_exclusions(case, known)
+    for f in ce.failed:
+        sig = _signature(case, f["label"])
+        hit = _match_known(sig, {}, excl)
+        if hit is not None:
+            res["known_hits"].append({"signature": sig, "id": hit["id"], "what": hit["what"], "model": {}})
+        else:
             res["violations"].append({"label": f["label"], "model": {}, "reproduced": True, "detail": f.get("detail", ""), "obligation": "concrete"})
+    if status == "stopped" and ce.failed:
+        pass
     elif status == "exception":
         res["violations"].append({"label": f"unexpected-exception:{exc}", "model": {}, "reproduced": True, "detail": getattr(ce, "exc_detail", ""), "obligation": "concrete"})
     elif status != "ok":
